@@ -46,6 +46,62 @@ def knownSites : List String := [
   "native/service/header_sync/starcoin.(*Handler).SyncBlockHeader->time.Now#1"
 ]
 
+/-- Reachable places that touch process-wide state (a package-level variable): reviewed on the unchanged tree, none can
+make the result of a block depend on the history of the process. No reachable function ASSIGNS a package-level variable,
+stores into one or deletes from one; what remains are method calls on package-level values:
+constant big integers (`diffInTurn/diffNoTurn.Int64`), immutable tables (base58 alphabet, compiled regexp, the starcoin
+consensus objects), sealed amino codecs (`Cdc`, `cdc`, `CryptoCodec`) and the RLP type cache `theTC` (memoised reflection
+data, a function of Go types only), `sync.Pool`s of scratch buffers that are reset before use (`hasherPool`, `encbufPool`),
+the event publisher (subscribers, not part of a result) and the read of the node's global ledger height in
+`SideChain.Serialization` (fork switch; equals height-1 of the block being executed on a node). -/
+def knownGlobalSites : List String := [
+  "common.(*Address).ToBase58->call:github.com/itchyny/base58-go.BitcoinEncoding.Encode#0",
+  "common.AddressFromBase58->call:github.com/itchyny/base58-go.BitcoinEncoding.Decode#0",
+  "native/event.PushSmartCodeEvent->call:events.DefActorPublisher.Publish#0",
+  "native/service/cross_chain_manager/cosmos.(*CosmosHandler).MakeDepositProposal->call:native/service/header_sync/cosmos.Cdc.UnmarshalBinaryBare#0",
+  "native/service/cross_chain_manager/cosmos.(*CosmosHandler).MakeDepositProposal->call:native/service/header_sync/cosmos.Cdc.UnmarshalBinaryBare#1",
+  "native/service/cross_chain_manager/cosmos.(*CosmosHandler).MakeDepositProposal->call:native/service/header_sync/cosmos.Cdc.UnmarshalBinaryBare#2",
+  "native/service/governance/side_chain_manager.(*SideChain).Serialization->call:core/ledger.DefLedger.GetCurrentBlockHeight#0",
+  "native/service/header_sync/bsc.(*Handler).SyncBlockHeader->call:native/service/header_sync/bsc.diffInTurn.Int64#0",
+  "native/service/header_sync/bsc.(*Handler).SyncBlockHeader->call:native/service/header_sync/bsc.diffNoTurn.Int64#0",
+  "native/service/header_sync/bytom.(*Handler).SyncBlockHeader->call:native/service/header_sync/bytom.diffInTurn.Int64#0",
+  "native/service/header_sync/bytom.(*Handler).SyncBlockHeader->call:native/service/header_sync/bytom.diffNoTurn.Int64#0",
+  "native/service/header_sync/cosmos.(*CosmosHandler).SyncBlockHeader->call:native/service/header_sync/cosmos.Cdc.UnmarshalBinaryBare#0",
+  "native/service/header_sync/cosmos.(*CosmosHandler).SyncGenesisHeader->call:native/service/header_sync/cosmos.Cdc.UnmarshalBinaryBare#0",
+  "native/service/header_sync/eth.rlpHash->call:native/service/header_sync/eth.hasherPool.Get#0",
+  "native/service/header_sync/eth.rlpHash->call:native/service/header_sync/eth.hasherPool.Put#0",
+  "native/service/header_sync/eth/rlp.(*encReader).Read->call:native/service/header_sync/eth/rlp.encbufPool.Put#0",
+  "native/service/header_sync/eth/rlp.Encode->call:native/service/header_sync/eth/rlp.encbufPool.Get#0",
+  "native/service/header_sync/eth/rlp.Encode->call:native/service/header_sync/eth/rlp.encbufPool.Put#0",
+  "native/service/header_sync/eth/rlp.cachedWriter->call:native/service/header_sync/eth/rlp.theTC.info#0",
+  "native/service/header_sync/eth/rlp.makeListDecoder->call:native/service/header_sync/eth/rlp.theTC.infoWhileGenerating#0",
+  "native/service/header_sync/eth/rlp.makePtrDecoder->call:native/service/header_sync/eth/rlp.theTC.infoWhileGenerating#0",
+  "native/service/header_sync/eth/rlp.makePtrWriter->call:native/service/header_sync/eth/rlp.theTC.infoWhileGenerating#0",
+  "native/service/header_sync/eth/rlp.makeSliceWriter->call:native/service/header_sync/eth/rlp.theTC.infoWhileGenerating#0",
+  "native/service/header_sync/eth/rlp.structFields->call:native/service/header_sync/eth/rlp.theTC.infoWhileGenerating#0",
+  "native/service/header_sync/heco.(*Handler).SyncBlockHeader->call:native/service/header_sync/heco.diffInTurn.Int64#0",
+  "native/service/header_sync/heco.(*Handler).SyncBlockHeader->call:native/service/header_sync/heco.diffNoTurn.Int64#0",
+  "native/service/header_sync/hsc.(*Handler).SyncBlockHeader->call:native/service/header_sync/hsc.diffInTurn.Int64#0",
+  "native/service/header_sync/hsc.(*Handler).SyncBlockHeader->call:native/service/header_sync/hsc.diffNoTurn.Int64#0",
+  "native/service/header_sync/msc.verifySeal->call:native/service/header_sync/msc.diffInTurn.Int64#0",
+  "native/service/header_sync/msc.verifySeal->call:native/service/header_sync/msc.diffNoTurn.Int64#0",
+  "native/service/header_sync/okex/ethsecp256k1.(PrivKey).Bytes->call:native/service/header_sync/okex/ethsecp256k1.CryptoCodec.MustMarshalBinaryBare#0",
+  "native/service/header_sync/okex/ethsecp256k1.(PubKey).Bytes->call:native/service/header_sync/okex/ethsecp256k1.CryptoCodec.MarshalBinaryBare#0",
+  "native/service/header_sync/pixiechain.(*Handler).SyncBlockHeader->call:native/service/header_sync/pixiechain.diffInTurn.Int64#0",
+  "native/service/header_sync/pixiechain.(*Handler).SyncBlockHeader->call:native/service/header_sync/pixiechain.diffNoTurn.Int64#0",
+  "native/service/header_sync/polygon/types.(*Vote).SignBytes->call:native/service/header_sync/polygon/types.cdc.MarshalBinaryLengthPrefixed#0",
+  "native/service/header_sync/polygon/types.cdcEncode->call:native/service/header_sync/polygon/types.cdc.MustMarshalBinaryBare#0",
+  "native/service/header_sync/polygon/types/common.(*BitArray).UnmarshalJSON->call:native/service/header_sync/polygon/types/common.bitArrayJSONRegexp.FindStringSubmatch#0",
+  "native/service/header_sync/polygon/types/common.(*BitArray).UnmarshalJSON->call:native/service/header_sync/polygon/types/common.bitArrayJSONRegexp.String#0",
+  "native/service/header_sync/polygon/types/secp256k1.(PubKeySecp256k1).Bytes->call:native/service/header_sync/polygon/types/secp256k1.cdc.MarshalBinaryBare#0",
+  "native/service/header_sync/starcoin.verifyHeaderDifficulty->call:native/service/header_sync/starcoin.argonConsensus.VerifyHeaderDifficulty#0",
+  "native/service/header_sync/starcoin.verifyHeaderDifficulty->call:native/service/header_sync/starcoin.cryptonightConsensus.VerifyHeaderDifficulty#0",
+  "native/service/header_sync/starcoin.verifyHeaderDifficulty->call:native/service/header_sync/starcoin.oldArgonConsensus.VerifyHeaderDifficulty#0"
+]
+
+/-- Reachable `go` statements and multi-way `select`s: none on the unchanged tree. -/
+def knownGoroutineSites : List String := []
+
 private theorem cert_closed : closed succ certificate = true := by decide +kernel
 private theorem cert_entries : entriesIn entries certificate = true := by decide +kernel
 
@@ -62,6 +118,22 @@ theorem no_unknown_sink_reachable : ∀ s ∈ sinkSites, Reach succ entries s.1 
 exact, not merely an upper bound. -/
 theorem known_sinks_reachable : ∀ k ∈ knownSites, ∃ s ∈ sinkSites, s.2 = k ∧ Reach succ entries s.1 :=
   covered_sound succ entries sinkSites witnessPaths knownSites (by decide +kernel)
+
+/-- Process-wide state: every reachable place that writes a package-level variable (assignment, element or field store,
+delete, increment or decrement) or calls a method on one is in the reviewed list — in particular no handler keeps a memo, cache or
+counter in a package-level variable that later executions could observe. -/
+theorem no_unknown_global_write_reachable : ∀ s ∈ globalWriteSites, Reach succ entries s.1 → s.2 ∈ knownGlobalSites :=
+  sinksKnown_sound succ entries certificate globalWriteSites knownGlobalSites cert_closed cert_entries (by decide +kernel)
+
+theorem known_global_sites_reachable : ∀ k ∈ knownGlobalSites, ∃ s ∈ globalWriteSites, s.2 = k ∧ Reach succ entries s.1 :=
+  covered_sound succ entries globalWriteSites witnessPaths knownGlobalSites (by decide +kernel)
+
+/-- Scheduling: no `go` statement and no `select` over several channels is reachable from a contract entry point. -/
+theorem no_unknown_goroutine_reachable : ∀ s ∈ goroutineSites, Reach succ entries s.1 → s.2 ∈ knownGoroutineSites :=
+  sinksKnown_sound succ entries certificate goroutineSites knownGoroutineSites cert_closed cert_entries (by decide +kernel)
+
+theorem known_goroutine_sites_reachable : ∀ k ∈ knownGoroutineSites, ∃ s ∈ goroutineSites, s.2 = k ∧ Reach succ entries s.1 :=
+  covered_sound succ entries goroutineSites witnessPaths knownGoroutineSites (by decide +kernel)
 
 open Poly.Model.Native
 
